@@ -11,7 +11,7 @@ ID = 'C08'
 ENGINE = 'E1 full product'
 RULE = ("full product dtype x width {scalar,1,3} x cast x user DIMENSION {unset, equal, different} x user "
         "ELEMENT-LIMIT {unset, equal, larger, more dimensions, smaller} x topology {plain, channel shared by two frames, "
-        "extra channel outside frames, one dataset under two channel names in two frames / in one frame with different casts, three channels} x source {inline, dict}; "
+        "extra channel outside frames, one dataset under two channel names in two frames / in one frame with different casts, three channels} x source {inline, dict, structured array, HDF5}; "
         "inconsistent user values must raise; otherwise descriptors are read from the file and must slice every "
         "record; non-trivial = file written and descriptors compared")
 ASSUMPTIONS = ["strict reader mc/rp66.py", "reference model mc/model.py"]
@@ -31,7 +31,9 @@ def cases(shard, tier):
     widths = ['s', 1, 3] if tier == 'quick' else ['s', 1, 2, 3, 5]
     for width, cast, dim, el, src in itertools.product(widths, CASTS[d], ['unset', 'equal', 'different'],
                                                        ['unset', 'equal', 'larger', 'moredims', 'smaller'],
-                                                       ['inline', 'dict']):
+                                                       ['inline', 'dict', 'struct', 'h5']):
+        if src in ('struct', 'h5') and shard['topo'] in ('alias', 'alias-same-frame'):
+            continue        # aliasing needs a data set name that differs from the channel name: dict/inline only
         yield {'dtype': d, 'topo': shard['topo'], 'width': width, 'cast': cast, 'dim': dim, 'el': el, 'src': src}
         if src == 'dict' and dim == 'unset' and el in ('unset', 'larger'):
             # the same objects were written before with data of another width / another dtype
@@ -66,7 +68,10 @@ def make_spec(c):
     data = {}
     ops = [S.op_lf(), S.op_origin()]
 
+    ops_by_h = {}
+
     def chan(h, name, a, **k):
+        ops_by_h[h] = name
         if c['src'] == 'inline':
             k['data'] = a
         else:
@@ -104,6 +109,14 @@ def make_spec(c):
     sp = {'sul': {'max_record_length': 8192}, 'ops': ops, 'write': {}}
     if c['src'] == 'dict':
         sp['write']['data'] = {'$datadict': data}
+    elif c['src'] == 'struct':
+        # fields in the order in which the frames list their channels (a structured source equal to the frame's dtype)
+        order = [op['name'] for op in ops if op.get('kind') == 'channel']
+        frame_order = [ops_by_h[r['$ref']] for op in ops if op.get('kind') == 'frame' for r in op['kw']['channels']]
+        names = list(dict.fromkeys(frame_order + order))
+        sp['write']['data'] = {'$struct': {'fields': [[k, data[k]] for k in names if k in data]}}
+    elif c['src'] == 'h5':
+        sp['write']['data'] = {'$h5': {'/' + k: v for k, v in data.items()}}
     return sp
 
 
